@@ -146,7 +146,7 @@ def run(c, schema, doc, sites, fault, early, *, early_bound=True, variables=None
         settle_after=False):
     """stop: None or one of 'aclose' | 'abort' - the explorer may insert it at any choice point (cost 0; exactly one)."""
     from graphql import ExecutionResult
-    from graphql.execution import ExecutionHooks, experimental_execute_incrementally
+    from graphql.execution import AbortedGraphQLExecutionError, ExecutionHooks, experimental_execute_incrementally
     from graphql.pyutils import AbortController
 
     obs = Obs()
@@ -189,7 +189,27 @@ def run(c, schema, doc, sites, fault, early, *, early_bound=True, variables=None
             r = experimental_execute_incrementally(schema, doc, root, variable_values=variables, field_resolver=resolver(),
                                                    enable_early_execution=early, hooks=ExecutionHooks(async_work_finished=on_finished), **kw)
             if hasattr(r, "__await__"):
-                r = await r
+                try:
+                    r = await r
+                except AbortedGraphQLExecutionError as aborted:
+                    # the caller is released here; the partial result the library exposes on the error belongs to the
+                    # caller, who has to consume or close it (that is how the library's own tests finish the work)
+                    obs.trace.append("caller:aborted")
+                    obs.exc = aborted
+                    ar = aborted.aborted_result
+                    if hasattr(ar, "__await__"):
+                        try:
+                            ar = await ar
+                        except Exception:  # noqa: BLE001
+                            ar = None
+                    sub = getattr(ar, "subsequent_results", None)
+                    if sub is not None:
+                        try:
+                            await sub.__anext__()
+                        except (Exception, StopAsyncIteration):  # noqa: BLE001
+                            pass
+                        await sub.aclose()
+                    raise
             if isinstance(r, ExecutionResult):
                 obs.result_kind = "single"
                 obs.payloads.append(r.formatted)
